@@ -71,7 +71,7 @@ static std::string action_text_(const SutAction& a) {
 
 std::string case_to_text(const Case& c) {
 	std::ostringstream o;
-	o << "case fill=" << int(c.fill) << " paint=" << c.paint << " logger0=" << int(c.logger0) << " replicas=" << int(c.replicas) << " in_contract=" << int(c.in_contract) << " lossy=" << int(c.lossy) << "\n";
+	o << "case fill=" << int(c.fill) << " paint=" << c.paint << " logger0=" << int(c.logger0) << " replicas=" << int(c.replicas) << " in_contract=" << int(c.in_contract) << " lossy=" << int(c.lossy) << " vlog=" << int(c.vlog) << "\n";
 	for (size_t i = 0; i < c.ops.size(); ++i) {
 		const Op& op = c.ops[i];
 		o << "op " << OP_NAMES[op.kind] << " a=" << op.a << " b=" << op.b << " c=" << op.c;
@@ -131,6 +131,7 @@ bool case_from_text(const std::string& text, Case& out, std::string& err) {
 				else if (k == "replicas") out.replicas = static_cast<uint8_t>(atoi(v.c_str()));
 				else if (k == "in_contract") out.in_contract = static_cast<uint8_t>(atoi(v.c_str()));
 				else if (k == "lossy") out.lossy = static_cast<uint8_t>(atoi(v.c_str()));
+				else if (k == "vlog") out.vlog = static_cast<uint8_t>(atoi(v.c_str()));
 			}
 		} else if (w == "op") {
 			std::string name; ls >> name; int k = find_name(OP_NAMES, OP_COUNT, name);
@@ -381,6 +382,10 @@ struct Gen {
 		if (P == "C04") { hostility = rng.chance(1, 3) ? 20 : 0; redirect = 100 - hostility; react_density = 100; }
 		if (P == "C03") { if (hostility + redirect < 60) { hostility = 40; redirect = 40; } react_density = 100; }
 		if (do_replica) { c.replicas = static_cast<uint8_t>(1 + rng.below(2)); do_serial = false; do_crash = false; do_replay_self = false; }
+		if (info.f_verbose && log && plans && !root_outcomes && rng.chance(3, 5)) {
+			// no plan-outcome callbacks on this machine, but a verbose logger that stays attached shows the outcomes
+			c.vlog = 1; c.logger0 = 1; do_logger_ops = false; logger_midop = false; root_outcomes = true;
+		}
 		story = plans && root_outcomes && rng.chance((P == "C08" || P == "C09") ? 60u : 15u, 100);
 		if (story) { if (plan_density < 2) plan_density = 2; if (hostility > 30) hostility = 30; }
 
